@@ -68,6 +68,26 @@ def check_panel(case, ctx):
     with package(name + '.kT'):
         KT = dense(p.calc_kT(c=c, nx=nx, ny=ny, Fnxny=Fn, silent=True))
     ctx.ok(np.array_equal(c, c_before), name + '.input-mutated', 'caller state vector was modified')
+    # the same state handed over in another container (strided view of a longer array / column of a mode matrix / list)
+    form = case.get('c_form', 'contiguous')
+    if form != 'contiguous':
+        if form == 'strided':
+            big = np.zeros(2 * c.size)
+            big[::2] = c
+            c2 = big[::2]
+        elif form == 'column':
+            big = np.zeros((c.size, 2))
+            big[:, 0] = c
+            c2 = big[:, 0]
+        else:
+            c2 = [float(x) for x in c]
+        ctx.label('c:' + form)
+        with package(name + '.fint'):
+            fc2 = _fint(p, c2, nx, ny, Fn)
+        with package(name + '.kT'):
+            KT2 = dense(p.calc_kT(c=c2, nx=nx, ny=ny, Fnxny=Fn, silent=True))
+        ctx.ok(np.array_equal(fc2, fc), name + '.state-container', 'fint differs when the state is given as %s' % form)
+        ctx.ok(np.array_equal(KT2, KT), name + '.state-container', 'kT differs when the state is given as %s' % form)
     fr, kL, kG = rp.nonlinear(pd, Fref, c, nx, ny, nl_strain=True)
     KTref = kL + kG
     fscale = np.max(np.abs(np.abs(KTref).dot(np.abs(c)))) or 1.
@@ -89,8 +109,9 @@ def check_panel(case, ctx):
                 fe = _fint(p, e * c, nx, ny, Fn)
             r.append(np.max(np.abs(fe - e * K0.dot(c))))
         lin = np.max(np.abs(K0.dot(c))) or 1.
-        ctx.ok(r[0] <= 1e-2 * lin * 1e-3 * max(1., wmax / h) ** 2 + 1e-12 * lin, name + '.small-state',
-               'fint(eps c) - eps K0 c = %.3e for eps=1e-3 (linear part %.3e)' % (r[0], lin))
+        # the size of the second-order remainder relative to K0 c has no a-priori bound (a state in a soft bending direction has a tiny
+        # linear part and a membrane-stiff quadratic part); what the statement fixes is its ORDER: halving eps quarters it.  A wrong
+        # first-order term would leave a remainder that only halves.
         if r[0] > 1e-9 * lin * 1e-3:
             ctx.ok(r[1] <= 0.3 * r[0] + 1e-12 * lin, name + '.small-state',
                    'remainder does not shrink quadratically: %.3e -> %.3e' % (r[0], r[1]))
@@ -262,6 +283,7 @@ def _panel_strategy(draw, tier='quick'):
     case['dirseed'] = draw(st.integers(0, 2 ** 20))
     case['coords'] = [draw(st.integers(0, 400)) for _ in range(3)]
     case['npath'] = draw(st.integers(1, 3))
+    case['c_form'] = draw(st.sampled_from(['contiguous', 'contiguous', 'strided', 'column']))   # calc_kT insists on an ndarray (explicit TypeError)
     return case
 
 
